@@ -507,10 +507,10 @@ fn check_program(prog: &Program, family: &str, cov: &mut Cov, rep: &mut Report, 
             if v.depth >= 3 {
                 rep.count("mast_node_kind_at_depth>=3", v.kind.name());
             }
-            if v.model != v.real {
+            if v.local != v.real {
                 rep.violation(
                     format!("mast/{}-hash-differs-from-spec", v.kind.name()),
-                    format!("{} node at depth {}: CodeBlock::hash() = {} but M-mast gives {}", v.kind.name(), v.depth, digest_str(&v.real), digest_str(&v.model)),
+                    format!("{} node at depth {}: CodeBlock::hash() = {} but the documented rule applied to its children gives {}", v.kind.name(), v.depth, digest_str(&v.real), digest_str(&v.local)),
                     wit(),
                 );
             }
@@ -627,16 +627,16 @@ fn check_proof(case: &Case, prog: &Program, model_root: RpoDigest, rep: &mut Rep
             return;
         }
     };
-    // the statement verified is (M-mast root, kernel): the proof must be accepted for it …
+    // the statement verified is (Program::hash(), kernel) — Program::hash() itself is judged against M-mast in (b): the proof must be accepted for it …
     let info = ProgramInfo::new(model_root, prog.kernel().clone());
     match pv::verify(info, case.stack_inputs(), outputs.clone(), proof.clone()) {
         VerifyOutcome::Ok(_) => {
-            rep.count("proof_outcome", "accepted-for-model-root");
+            rep.count("proof_outcome", "accepted-for-program-hash");
             rep.eval(&format!("proof|kernel:{}", !prog.kernel().is_empty()));
         }
         other => rep.violation(
-            "proof/rejected-for-spec-root",
-            format!("honest proof not accepted for the program info built from the M-mast root: {}", other.class()),
+            "proof/rejected-for-program-hash",
+            format!("honest proof not accepted for ProgramInfo(Program::hash(), kernel): {}", other.class()),
             wit(),
         ),
     }
@@ -889,7 +889,7 @@ fn make_variant(base: &Case, edit: &'static str, rng: &mut Rng8) -> Option<Varia
             let old = vals[j] % P;
             let mut nv = match rng.gen_range(0..4) {
                 0 => (old + 1) % P,
-                1 => (old + P - 1) % P,
+                1 => ((old as u128 + P as u128 - 1) % P as u128) as u64,
                 2 => old ^ 1,
                 _ => biased_felt(rng),
             } % P;
@@ -1011,7 +1011,8 @@ fn program_case(case: &Case, family: &str, rng: &mut Rng8, cov: &mut Cov, rep: &
     }
     let mut executed = false;
     if do_exec {
-        executed = check_execution(case, &prog, model_root, rep, &wit);
+        // Program::hash() vs M-mast is judged above; here: recorded hash vs Program::hash()
+        executed = check_execution(case, &prog, prog.hash(), rep, &wit);
     }
     if do_edits {
         let feats = features(case, &prog);
@@ -1021,13 +1022,13 @@ fn program_case(case: &Case, family: &str, rng: &mut Rng8, cov: &mut Cov, rep: &
                 // executions of neutral variants record the same hash
                 if let (Some(vp), true) = (vp, executed && v.expect_same && v.edit != "adv-injectors" && v.edit != "all-neutral" && rng.gen_bool(0.15)) {
                     let w = || json!({"kind": "program", "family": "edited", "case": v.case.to_json()});
-                    check_execution(&v.case, &vp, model_root, rep, &w);
+                    check_execution(&v.case, &vp, prog.hash(), rep, &w);
                 }
             }
         }
     }
     if do_proof && executed {
-        check_proof(case, &prog, model_root, rep);
+        check_proof(case, &prog, prog.hash(), rep);
     }
 }
 
@@ -1210,8 +1211,8 @@ const SHARDS: usize = 64;
 pub fn run(cfg: &Cfg) -> Report {
     let n_exh = cfg.tier.pick(14usize, 18usize);
     let n_per = cfg.tier.pick(10usize, 12usize);
-    let n_rand = cfg.n(1500, 15000);
-    let n_prog = cfg.n(150, 2500);
+    let n_rand = cfg.n(1500, 40000);
+    let n_prog = cfg.n(150, 6000);
     let n_proof_shards = cfg.tier.pick(4usize, 1usize); // a proof in every k-th shard / in every shard
     let n_proofs_per = cfg.tier.pick(1usize, 2usize);
     // the elliptic-curve modules take 5–80 s each to assemble (huge unrolled MASTs): thorough tier only
@@ -1333,9 +1334,9 @@ pub fn run(cfg: &Cfg) -> Report {
                 case.debug_mode = true;
             }
             let want_proof = proofs_left > 0 && i < 8;
-            let before = rep.get_count("proof_outcome", "accepted-for-model-root");
+            let before = rep.get_count("proof_outcome", "accepted-for-program-hash");
             program_case(&case, "generated", &mut rng, &mut cov, &mut rep, true, true, want_proof);
-            if rep.get_count("proof_outcome", "accepted-for-model-root") > before {
+            if rep.get_count("proof_outcome", "accepted-for-program-hash") > before {
                 proofs_left -= 1;
             }
         }
@@ -1389,7 +1390,7 @@ pub fn run(cfg: &Cfg) -> Report {
     }
     rep.floor(rep.get_count("exec_outcome", "ok") >= 50, "50-executions-compared");
     rep.floor(rep.get_count("exec_end_row_hash", "compared") >= 50, "50-decoder-end-rows-compared");
-    rep.floor(rep.get_count("proof_outcome", "accepted-for-model-root") >= 4, "4-proofs-verified-against-model-root");
+    rep.floor(rep.get_count("proof_outcome", "accepted-for-program-hash") >= 4, "4-proofs-verified-against-program-hash");
     let walked: u64 = rep.hist.get("stdlib_procedures_walked").map(|h| h.values().sum()).unwrap_or(0);
     rep.floor(walked as usize >= n_std_procs * 9 / 10 && n_std_procs > 0, "stdlib-procedures-walked");
     rep.floor(examples.is_empty() || rep.get_count("program_outcome", "examples:assembled") >= 1, "example-programs-walked");
